@@ -69,6 +69,11 @@ impl BigInt {
         }
     }
 
+    /// The digits of the value in the given base (2 to 36).
+    pub fn to_str_radix(&self, base: u8) -> String {
+        self.inner.to_str_radix(base as u32)
+    }
+
     pub fn as_int(&self) -> Option<i64> {
         self.inner.to_i64()
     }
